@@ -253,6 +253,7 @@ func dev(filter string) int {
 		}
 		fmt.Printf("%s %-90s %-8s %-7s %5dms insts=%d %s\n", st, o.Name, o.Result.Status, o.Result.Solver, o.Result.Ms, len(o.Insts), trunc(o.Text, 70))
 		if !o.ok() && os.Getenv("GOVC_VERBOSE") != "" {
+			fmt.Println("     text:", o.Text)
 			fmt.Println("     raw:", trunc(o.Result.Raw, 300))
 			if o.Result.Status == "sat" {
 				fmt.Println("     model:", trunc(strings.ReplaceAll(o.Result.Model, "\n", " "), 1500))
@@ -434,7 +435,7 @@ func check(prop, tier string) int {
 		tb = append(tb, k)
 	}
 	tb = append(tb, e.cs.RawScanFor(prop)...)
-	tb = append(tb, "govc (VC generator, /verif/govc) and its Go semantics summary (DESIGN.md 3.2)", "z3 4.8.12 / z3 5.1.0 / cvc5 1.0.3: an unsat from any one is accepted", "mathematical integers except where overflow obligations are enabled", "slices are values: aliasing through shared backing arrays is not modelled")
+	tb = append(tb, "govc (VC generator, /verif/govc) and its Go semantics summary (DESIGN.md 3.2)", "z3 4.8.12 / z3 5.1.0 / cvc5 1.0.3: an unsat from any one is accepted", "solver tag /strabs: query posed with String as an uninterpreted sort (only when it has no string operation; only unsat is accepted from it); tag +focus: cut assertion proved from entry facts and earlier cuts of the same site alone", "mathematical integers except where overflow obligations are enabled", "slices are values: aliasing through shared backing arrays is not modelled")
 	sort.Strings(tb)
 	tb = uniq(tb)
 	var ns []string
